@@ -16,6 +16,10 @@ func main() {
 		os.Exit(2)
 	}
 	switch os.Args[1] {
+	case "crash":
+		os.Exit(vstore.CrashMain(os.Args[2:]))
+	case "sqlfail":
+		os.Exit(vstore.SQLFailMain(os.Args[2:]))
 	case "store":
 		os.Exit(vstore.Main(os.Args[2:]))
 	case "fieldmap":
